@@ -7,6 +7,8 @@ import (
 	"net/url"
 	"os"
 	"os/exec"
+	"path"
+	"path/filepath"
 	"runtime"
 	"sort"
 	"strconv"
@@ -316,6 +318,15 @@ func runEntryWith(w *refgraph.World, call entryCall, cache spec.ResolutionCache,
 	var err error
 	f := func() {
 		switch call.Entry {
+		case "schemaRoot", "paramRoot", "respRoot":
+			if loader != nil {
+				// these entry points take no options: documents other than the root come from the package-level loader
+				old := spec.PathLoader
+				spec.PathLoader = loader
+				defer func() { spec.PathLoader = old }()
+			}
+		}
+		switch call.Entry {
 		case "schemaWithBase":
 			var s spec.Schema
 			if err = json.Unmarshal([]byte(elem.Text()), &s); err != nil {
@@ -597,6 +608,73 @@ func cacheFamilies() []graphFamily {
 
 // ---- C18 ----
 
+// c18WithRootEntries: the entry points that take an in-memory root and a cache (ExpandSchema, ExpandParameterWithRoot,
+// ExpandResponseWithRoot), on a root whose elements lead into two further documents (absolute references): the
+// supplied cache is the one that is consulted and filled, whatever the entry point.
+func c18WithRootEntries(c *Ctx) {
+	cwd, _ := os.Getwd()
+	rootURL := (&url.URL{Scheme: "file", Path: path.Join(filepath.ToSlash(cwd), ".root")}).String()
+	for i := 0; i < c.N(6, 60); i++ {
+		host := []string{"http://h.example/api/", "https://docs.example/v" + fmt.Sprint(c.Intn(3)) + "/", "file:///v/shared/"}[i%3]
+		pURL, mURL := host+"params.json", host+"models.json"
+		w := &refgraph.World{Root: rootURL, Docs: map[string]wire.V{
+			rootURL: wire.MustParse(`{"swagger":"2.0","info":{"title":"t","version":"1"},"paths":{},
+				"parameters":{"p":{"$ref":` + quoteJSON(pURL+"#/parameters/limit") + `},"q":{"name":"b","in":"body","schema":{"$ref":` + quoteJSON(mURL+"#/definitions/m") + `}}},
+				"responses":{"r":{"$ref":` + quoteJSON(pURL+"#/responses/ok") + `}},
+				"definitions":{"d":{"$ref":` + quoteJSON(mURL+"#/definitions/m") + `},"e":{"type":"object","properties":{"x":{"$ref":` + quoteJSON(pURL+"#/definitions/viaParams") + `}}}}}`),
+			pURL: wire.MustParse(`{"parameters":{"limit":{"name":"limit","in":"body","schema":{"$ref":` + quoteJSON(mURL+"#/definitions/m") + `}}},
+				"responses":{"ok":{"description":"ok","schema":{"$ref":"models.json#/definitions/m"}}},
+				"definitions":{"viaParams":{"$ref":"models.json#/definitions/n"}}}`),
+			mURL: wire.MustParse(`{"definitions":{"m":{"type":"object","properties":{"n":{"$ref":"#/definitions/n"}}},"n":{"type":"string","description":` + quoteJSON(fmt.Sprint("leaf ", i)) + `}}}`)}}
+		wj := worldJSON(w)
+		calls := []entryCall{{Entry: "paramRoot", Path: []string{"parameters", "p"}}, {Entry: "paramRoot", Path: []string{"parameters", "q"}},
+			{Entry: "respRoot", Path: []string{"responses", "r"}}, {Entry: "schemaRoot", Path: []string{"definitions", "d"}}, {Entry: "schemaRoot", Path: []string{"definitions", "e"}}}
+		c.Rng.Shuffle(len(calls), func(a, b int) { calls[a], calls[b] = calls[b], calls[a] })
+		reuseT := &tracer{}
+		reuse := newTCache(reuseT)
+		for _, call := range calls {
+			t0 := &tracer{}
+			ref := runEntry(w, call, nil, tracedLoader(w, t0, nil))
+			if ref.Panic != "" || ref.Hang || ref.Err != "" {
+				c.Fail(Failure{Kind: "oracle", Sig: "C08:spurious-error", What: "every $ref is resolvable but the call fails: " + ref.Err + ref.Panic, Case: map[string]interface{}{"world": wj, "call": call}})
+				continue
+			}
+			for _, pre := range [][]string{nil, {pURL}, {mURL}, {pURL, mURL}} {
+				t := &tracer{}
+				tc := newTCache(t)
+				tc.preload(w, pre)
+				got := runEntry(w, call, tc, tracedLoader(w, t, nil))
+				c.Count(fmt.Sprint("with-root", wj, call, pre), true)
+				c.Hit("with-root:" + call.Entry)
+				cs := map[string]interface{}{"world": wj, "call": call, "preloaded": nonNil(pre), "family": "with-root"}
+				if got.Panic != "" || got.Hang || got.Err != ref.Err || got.Out != ref.Out {
+					c.Fail(Failure{Kind: "oracle", Sig: "C18:cache-changes-result", What: fmt.Sprintf("supplying a cache changes the result: without %s, with %s %s%s", clip(ref.Out), clip(got.Out), got.Err, got.Panic), Case: cs})
+				}
+				f := fetchesOf(t.events())
+				if u, dup := hasDup(f); dup {
+					c.Fail(Failure{Kind: "oracle", Sig: "C18:fetched-twice", What: u + " was requested from the loader twice within one call", Case: cs})
+				}
+				for _, u := range f {
+					for _, p := range pre {
+						if u == p {
+							c.Fail(Failure{Kind: "oracle", Sig: "C18:fetched-although-cached", What: u + " is in the supplied cache but was requested from the loader", Case: cs})
+						}
+					}
+				}
+			}
+			// one cache reused over the calls: nothing is fetched twice over the whole sequence
+			got := runEntry(w, call, reuse, tracedLoader(w, reuseT, nil))
+			cs := map[string]interface{}{"world": wj, "call": call, "mode": "reused", "family": "with-root"}
+			if got.Panic != "" || got.Hang || got.Err != ref.Err || got.Out != ref.Out {
+				c.Fail(Failure{Kind: "oracle", Sig: "C18:cache-changes-result", What: "re-using a cache changes the result", Case: cs})
+			}
+			if u, dup := hasDup(fetchesOf(reuseT.events())); dup {
+				c.Fail(Failure{Kind: "oracle", Sig: "C18:fetched-twice", What: u + " was requested again although an earlier call with the same cache had fetched it", Case: cs})
+			}
+		}
+	}
+}
+
 // c18IDScopes: a sub-schema that opens a scope of its own with an absolute `id` and refers, fragment-only, to a
 // definition that exists both inside that scope and in the enclosing document (other content): which of the two is
 // meant does not depend on whether the enclosing document happens to be in the supplied cache.
@@ -750,6 +828,7 @@ func c18Dangling(c *Ctx, w *refgraph.World, g *refgraph.Graph, fam string) {
 func runC18(c *Ctx) {
 	c.Res.Rule = "random multi-document reference graphs (5 families); every definition of the root through ExpandSchemaWithBasePath (and, for single-document worlds, every definition/parameter/response through ExpandSchema / ExpandParameterWithRoot / ExpandResponseWithRoot) with: no cache, a fresh instrumented cache, every subset of the documents pre-loaded (all subsets up to 4 documents, 8 random ones beyond), one cache reused over all elements of the root in sequence; oracle: same outcome as without a cache (by meaning for cyclic graphs), no URL requested twice from the loader, no pre-loaded URL requested; every recorded trace checked by the model's validator and replayed through the model's interpreter; non-trivial = run whose trace has at least one loader call or cache hit; distinct by (world, element, pre-load set)"
 	c18IDScopes(c)
+	c18WithRootEntries(c)
 	n := c.N(60, 1500)
 	fams := cacheFamilies()
 	for i := 0; i < n; i++ {
